@@ -12,7 +12,8 @@ CLAIMS = {
              'elements x every send outcome; (2) inductive step of one event-loop iteration of an established CONNECT tunnel from any '
              'pending-buffer state, any reported-ready subset, any send outcome, followed by a fair drain; (3) k-step tunnel schedules from '
              'the real initial state; (4) plain-HTTP response relay for 8 framings cut at every position under short writes. z3 decides '
-             'every path; CONFIRMED means exhaustive within the bounds.',
+             'every path; CONFIRMED means exhaustive within the bounds. The tunnel step also asserts progress (a selectable unread segment is read '
+             'whatever else is pending), the buffer step that zero-length elements are retired.',
         note='Trusted: CrossHair 0.0.110 + z3, the plugin models (split/int/struct, validated each run), FakeSocket/connect/selector stubs '
              '(any accepted prefix, EAGAIN, EPIPE, reset), integer clock. Sizes <=3 bytes per element, <=3 steps; kernel TCP outside.',
         ref='DESIGN.md §2 C01'),
@@ -38,7 +39,7 @@ CLAIMS['C16'] = dict(
          'apply_mask: header bytes decode to the same fields and equal the RFC 6455 layout for all flag/opcode/length<126 values; masking '
          'equals RFC XOR and is an involution for symbolic data and key; (b) CrossHair round trip parse(build(f)+T) and byte equality with '
          'an independent RFC 6455 encoder for payload lengths at both length-encoding thresholds, all flags x opcodes, symbolic payload '
-         'and trailing bytes.',
+         'and trailing bytes, each after an earlier frame with complementary flag bits built in the same process.',
     note='Trusted: z3, the AST->z3 translator (validated on 1000 random inputs per run against the native functions), CrossHair, plugin '
          'models of struct.pack/unpack and io.BytesIO. Masked frames above 127 bytes and the SHA-1/base64 accept token run on concrete '
          'vectors only (reported as concrete_vectors, not a solver claim).',
@@ -49,21 +50,24 @@ CLAIMS['C13'] = dict(
     text='Request path = "/" + up to 5 (thorough 6) characters over {/ . a b % 2 e ?}, each fixed per path by a solver-decided ladder, '
          'plus concrete traversal prefixes, through the real handler -> HttpWebServerPlugin -> serve_static_file against a fake file tree '
          'with files inside, beside (name-prefix sibling) and above the root: 200 only if an independent dot-segment resolver places the path '
-         'inside the root and the body equals that file; otherwise exactly the 404 packet; the query never changes the outcome.',
+         'inside the root and the body equals that file; otherwise exactly the 404 packet; the query never changes the outcome; the same '
+         'request repeated on a new connection of the same process gets the same answer.',
     note='Trusted: CrossHair + z3; open()/mimetypes stubbed by FakeFS with its own normaliser; pure-Python model of os.path.normpath '
-         '(validated each run). gzip replies are checked on concrete vectors natively (not a solver claim).',
+         '(validated each run). gzip replies are checked natively on one concrete sequence of requests per process (not a solver claim).',
     ref='DESIGN.md §2 C13')
 CLAIMS['C14'] = dict(
     text='Targets assembled from components (absolute / scheme-less / CONNECT authority form; reg-names, IPv4, six IPv6 spellings with '
          'symbolic characters; symbolic port 1..65535 or absent; userinfo; symbolic path characters) run through Url.from_bytes and then '
          'through the real handler, connect_upstream and the REAL new_socket_connection down to a stubbed socket module: parsed host/port/path '
          'equal the components, default ports 80/443, exactly one OS-level connect to (host without brackets, port) with the right address '
-         'family; damaged targets end in 400/502/close without any connect.',
+         'family; damaged targets (incl. port 0) end in 400/502/close without any connect; with a resolve_dns plugin two successive connections '
+         'of one worker to the same host each go to their own (symbolic) port.',
     note='Trusted: CrossHair + z3, plugin models; socket.socket/create_connection recorders (raise OverflowError for ports outside 0..65535 '
          'as the OS call does). Component assembly is cross-checked against urllib.parse on concrete samples each run.',
     ref='DESIGN.md §2 C14')
 CLAIMS['C18'] = dict(
-    text='Every history of bounded length over {subscribe i, unsubscribe i (also unknown/repeated), break channel i, publish} with '
+    text='Every history of bounded length over {subscribe i, unsubscribe i (also unknown/repeated), break channel i, publish, subscribe with an '
+         'already broken channel, come back under the same id after the channel broke} with '
          'run_once() after each operation, executed on the real EventDispatcher/EventQueue with list-backed queue and channel stubs; per '
          'channel the received sequence must equal the reference sequence (ack, publishes while subscribed and unbroken in order, unsubscribe '
          'ack), removed/broken channels are closed and evicted, the dispatcher never raises. Opcodes are solver variables fixed per path '
@@ -75,7 +79,8 @@ CLAIMS['C19'] = dict(
          'configuration of primary port / 0..3 additional ports (values chosen by symbolic selectors from a 5-value pool incl. 0) / unix socket '
          '/ 1-2 addresses / port+pid files: every configured (address, port) is listened on, flags.port is the port bound for --port, '
          '[flags.port]+flags.ports is exactly the set of bound TCP ports, the port file lists them primary first, acceptors start after '
-         'binding and stop before listeners close, files are removed on shutdown.',
+         'binding and stop before listeners close, files are removed on shutdown. Every such tuple is also given on the command line and run '
+         'natively through FlagParser.initialize (concrete vectors, not a solver claim).',
     note='NOT claimed (not encodable): that endpoints really accept, child processes, real files, execution modes. Stubs: listen(), '
          'AcceptorPool/ThreadlessPool/EventManager recorders, in-memory file system, address stand-ins (ipaddress objects hash through hex(), '
          'which the tracer breaks).',
@@ -95,7 +100,7 @@ CLAIMS['C02'] = dict(
     text='Requests assembled from components the harness owns (method incl. a symbolic token, absolute-form target with symbolic path '
          'bytes, headers with symbolic case/value/optional whitespace, Proxy-Connection / Proxy-Authorization / operator-disabled headers, '
          'Content-Length or chunked bodies incl. the empty chunked body) are fed to the real handler whole and cut at every body position, as '
-         'first and as second request of the connection; the bytes queued for the origin are read by an independent reference reader and '
+         'first, second and third request of the connection, with the framing header spelled canonically or in lower case; the bytes queued for the origin are read by an independent reference reader and '
          'compared field-wise (method, origin-form target, version, header multiset, Via present, hop-by-hop/disabled absent, decoded body, '
          'self-consistent framing).',
     note='Trusted: CrossHair + z3, plugin models, reference reader (cross-checked against h11 each run), FakeSocket/connect stub.',
@@ -104,9 +109,9 @@ CLAIMS['C04'] = dict(
     text='1-2 (thorough 3) requests on one connection through the real executor loop in three roles (forward proxy, web route, reverse '
          'proxy), same/different origins, with/without bodies, packed one per segment / all in one segment / split around the boundary; '
          'upstream stubs answer every complete request; asserts one response per request, in order, from the named origin, requests intact at '
-         'each upstream, connection kept. THREE OPEN KNOWN FINDINGS mask the shared-segment, other-origin and reverse-proxy follow-up '
-         'obligations (see known_findings.json); what is currently discharged is the one-request-per-segment behaviour of the forward proxy '
-         '(same origin) and of web routes.',
+         'each upstream, connection kept; web role with two independent route plugins and an unrouted follow-up (404); the last request '
+         'optionally announcing Connection: close. FOUR OPEN KNOWN FINDINGS (see known_findings.json, DESIGN 7.6) mask the other-origin '
+         '(forward), other-upstream, literal-overtakes and follow-up-Connection-close (reverse proxy) obligations.',
     note='Trusted: CrossHair + z3, executor kit (FakeLoop/FakeSelector/FakeSocket), reference reader. Obligations matching a known finding are '
          'reported as masked_by_known_findings, not as discharged.',
     ref='DESIGN.md §2 C04, §7.6')
@@ -114,14 +119,17 @@ CLAIMS['C05'] = dict(
     text='Real Threadless._run_once with two works: a canary running a fixed forward-proxy exchange and an adversary whose request bytes '
          '(one arbitrary byte per run in 11 templates, incl. non-UTF-8), client-side abort (EOF/reset/EIO/EPIPE), upstream connect outcome '
          '(refused/timeout/resolution failure/unreachable) and upstream abort are chosen per obligation/solver, in forward, web and reverse '
-         'roles; asserts no exception ever leaves the loop or _cleanup_inactive, the canary transcript equals its transcript when run alone, '
-         'and a connection accepted afterwards is served.',
+         'roles, plus a websocket route (handshake, then frames with arbitrary length/opcode byte) and descriptor-number reuse while an '
+         'adversary that never drains loses its upstream; asserts no exception ever leaves the loop or _cleanup_inactive, every iteration '
+         'terminates (call-count watchdog), the canary transcript equals its transcript when run alone, and a connection accepted afterwards '
+         'is served.',
     note='Trusted: CrossHair + z3, executor kit; asyncio scheduling is stubbed (tasks complete when created), one adversary at a time.',
     ref='DESIGN.md §2 C05')
 CLAIMS['C06'] = dict(
     text='(a) totality: first-request bytes from 13 mutation templates with 2-5 arbitrary bytes in three roles; the outcome must be exactly '
          'one of waiting / served / rejected-with-a-well-formed-canned-response-and-close / clean close, never a queued response on a kept '
-         'connection; (b) every response builder (build_http_response, okResponse, redirects, HttpRequestRejected.response) with symbolic '
+         'connection; (a2) bytes following a served web request / a websocket upgrade never yield more responses than requests nor an HTTP '
+         'message inside the upgraded stream; (b) every response builder (build_http_response, okResponse, redirects, HttpRequestRejected.response) with symbolic '
          'reason/header/body bytes is judged by the independent reference reader for syntax and length-vs-framing consistency.',
     note='Trusted: CrossHair + z3, reference reader (cross-checked against h11 each run; canned packets additionally judged by h11 as '
          'concrete vectors). Exceptions leaving handle_events count as "closed" here; their effect on the loop is C05.',
@@ -129,7 +137,8 @@ CLAIMS['C06'] = dict(
 CLAIMS['C07'] = dict(
     text='Real executor loop until the client socket is closed, for 8 causes of proxy-initiated close (400, unknown scheme, 407, web 404, '
          'static reply, static 404, 502 after refused connect, upstream data followed by upstream EOF 0-3 iterations later in 1-4 segments) '
-         'with solver-chosen fair short-write classes on the first writes and small --max-sendbuf-size: bytes received at close() equal the '
+         'with solver-chosen fair short-write classes (incl. a spurious wake-up / EAGAIN) on the first writes, small --max-sendbuf-size, and the '
+         'client optionally half-closing while the reply is queued (a route\'s keep-alive reply included): bytes received at close() equal the '
          'complete output, no read interest while flushing, no use after close, executor bookkeeping clean; threaded run()/_flush() variant.',
     note='Trusted: CrossHair + z3, executor kit. Fairness (>=1 byte per write) is the property\'s own proviso.',
     ref='DESIGN.md §2 C07')
@@ -137,19 +146,22 @@ CLAIMS['C08'] = dict(
     text='With --basic-auth (3 credentials) and a recording user plugin after auth: Proxy-Authorization absent, or the correct value with 1-3 '
          'arbitrary bytes replaced/appended/prepended/inserted/truncated or another scheme token, two symbolic case bits in the header name, '
          'methods incl. CONNECT. Reference decision written independently; unauthorised => exactly the 407 packet, close, no connect, no hook '
-         'of the later plugin; authorised => served and no Proxy-Authorization reaches the origin on the first or the second request.',
+         'of the later plugin, also for bytes arriving while the 407 is still queued; authorised => served and no Proxy-Authorization reaches '
+         'the origin on the first or the second request (also with an operator-chosen --disable-headers list).',
     note='Trusted: CrossHair + z3, FakeSocket/connect stub; recording plugin loaded through the real flag/plugin loader.',
     ref='DESIGN.md §2 C08')
 CLAIMS['C09'] = dict(
     text='1-3 recording plugins with solver-chosen behaviour per (plugin, hook) in {pass, modify, drop, reject}; expected hook order, data '
          'flow, upstream-connect count, forwarded request and client response computed by a reference fold of the documented semantics; '
-         'upstream-chunk and access-log chains; lifecycle hooks exactly once for 9 ways a connection ends on the real executor. A finite '
+         'plain and CONNECT requests, follow-up requests (the request after a dropped/modified one runs the chain once and is forwarded); '
+         'upstream-chunk and access-log chains; lifecycle hooks exactly once for 9 ways a connection ends on the real executor, without and '
+         'with --enable-conn-pool. A finite '
          'behaviour table explored by forking: the solver decides path feasibility only.',
     note='Trusted: CrossHair + z3, executor kit, reference reader.',
     ref='DESIGN.md §2 C09')
 CLAIMS['C10'] = dict(
-    text='One connection at a time on the real executor for 6 scripts (forward keep-alive, tunnel, web route, web 404, reverse proxy, '
-         'garbage): every prefix followed by a client- or upstream-side abort (EOF, reset, EPIPE, EIO, timeout), connect failures, and idle '
+    text='One connection at a time on the real executor for 8 scripts (forward keep-alive, tunnel, web route, web 404, reverse proxy, '
+         'garbage, first / follow-up request rejected by a plugin after the upstream connection exists): every prefix followed by a client- or upstream-side abort (EOF, reset, EPIPE, EIO, timeout), connect failures, and idle '
          'reaping under a jumped clock; afterwards every socket opened for the connection is closed and unused, selector map, works, '
          'registered_events_by_work_ids and unfinished are empty; selected histories twice on the same executor.',
     note='Trusted: CrossHair + z3, executor kit. Real descriptors, os.close(work_id) of remote executors and conn-pool mode are outside.',
@@ -159,7 +171,8 @@ CLAIMS['C11'] = dict(
          'the configured trust store with CERT_REQUIRED + check_hostname + server_hostname = CONNECT host unless --insecure-tls-interception; '
          'on a failed upstream handshake nothing but the 200 acknowledgement is ever queued and the connection ends; leaf requested with '
          'SAN = host, signed with the configured CA files, cached by host; client wrapped with it after the ack was flushed; plugin opt-out '
-         '= opaque byte-exact tunnel; decrypted requests forwarded over the verified session and the response returned intact.',
+         '= opaque byte-exact tunnel; decrypted requests forwarded over the verified session and the response returned intact; '
+         'SSLWantReadError on either side of an established session means retry, not teardown.',
     note='NOT claimed (not encodable): that OpenSSL verifies, that the leaf chains to the CA, real handshakes. Symbolic: host letters, both '
          'handshake outcomes, cache state, opt-out, payload byte.',
     ref='DESIGN.md §2 C11')
@@ -168,8 +181,10 @@ CLAIMS['C12'] = dict(
          'literal response); request path = concrete prefixes + 0-2 symbolic characters, solver-chosen upstream index, methods, a header, '
          'body, --rewrite-host-header on/off: exactly one connect to (URL host, port or 80/443 by scheme), TLS wrap iff https, upstream path '
          '= URL path, Host rewritten iff the option is on, other headers/body preserved, reply relayed unmodified; no route => 404 + close, '
-         'no connect.',
-    note='Trusted: CrossHair + z3 (regex matching kept symbolic by the engine), reference reader, TcpServerConnection.wrap recorder.',
+         'no connect; sequences of 2-3 requests on new connections mixing a dynamic route that adjusts its parsed URL with a static route '
+         'naming the same URL (state must not leak between requests).',
+    note='Trusted: CrossHair + z3 (regex matching kept symbolic by the engine), reference reader, TcpServerConnection.wrap recorder. The '
+         'request sequences are additionally run natively as concrete vectors (functools caches are bypassed by the engine; not a solver claim).',
     ref='DESIGN.md §2 C12')
 
 NOT_BUILT = 'check not built yet in this session (work in progress; see DESIGN.md §2 for the plan)'
